@@ -152,27 +152,57 @@ func init() {
 	})
 }
 
+// c04Case is one generated case before the final interleaving.
+type c04Case struct {
+	class string
+	in    V
+}
+
 func genC04(g *Gen) {
-	const B = 4096
+	const B = 4096 // boundary alphabet is built around the usual buffer size; the model takes the real one from Consts.v
+	var all []c04Case
+	add := func(class string, in V) { all = append(all, c04Case{class, in}) }
 	sizeAlpha := []int{0, 1, 2, B - 1, B, B + 1, 2*B + 1}
 	type script struct {
 		name   string
 		chunks V
 		with   int
 	}
+	min := func(a, b int) int {
+		if a < b {
+			return a
+		}
+		return b
+	}
+	// script families over a stream of n bytes (DESIGN 5 C04).  1-byte fragmentation covers more than
+	// two buffers and then falls back to "as much as fits", so that long streams stay cheap.
 	scripts := func(n int) []script {
+		bw := min(n+2, 2*B+600)
 		return []script{
 			{"one", Ls(), 0},
 			{"one+eof", Ls(), 1},
-			{"bytewise", Ls(Ls(I(1), I(n+2))), 0},
-			{"bytewise+eof", Ls(Ls(I(1), I(n+2))), 1},
+			{"bytewise", Ls(Ls(I(1), I(bw))), 0},
+			{"bytewise+eof", Ls(Ls(I(1), I(bw))), 1},
 			{"short", Ls(I(3), I(1), I(7), I(100), I(2), Ls(I(997), I(n/997+2))), 0},
 			{"empties", Ls(I(0), I(5), I(0), I(0), I(700), Ls(I(0), I(99)), I(1), Ls(I(0), I(99)), Ls(I(4000), I(n/4000+2))), 1},
 			{"bigchunk", Ls(I(3*B), I(1), Ls(I(5*B), I(n/B+2))), 0},
-			{"stall", Ls(I(10), Ls(I(0), I(100)), I(5), Ls(I(0), I(101)), Ls(I(50), I(n/50+2))), 0},
+			{"stall", Ls(I(10), Ls(I(0), I(100)), I(5), Ls(I(0), I(101)), Ls(I(50), I(min(n/50+2, 400)))), 0},
 		}
 	}
 	mkop := func(k, n int) V { return Ls(I(k), I(n)) }
+	rl := Ls(I(4))
+	rel := Ls(I(5))
+	withLen := func(ops ...V) VL { // every op followed by ReadLen
+		out := VL{}
+		for _, o := range ops {
+			out = append(out, o, rl)
+		}
+		return out
+	}
+	reader := func(seed, dl, fin, with int, chunks V, ops VL) V {
+		return Ls(I(0), PatV(seed, dl), I(fin), I(with), chunks, ops, I(0))
+	}
+
 	// 1. bounded-exhaustive op sequences over the boundary alphabet
 	maxLen := 2
 	var seqs [][]V
@@ -182,7 +212,7 @@ func genC04(g *Gen) {
 			opsAlpha = append(opsAlpha, mkop(k, n))
 		}
 	}
-	opsAlpha = append(opsAlpha, Ls(I(5)))
+	opsAlpha = append(opsAlpha, rel)
 	var rec func(cur []V, d int)
 	rec = func(cur []V, d int) {
 		if d > 0 {
@@ -197,25 +227,40 @@ func genC04(g *Gen) {
 	}
 	rec(nil, 0)
 	dataLens := []int{0, 1, B, 3*B + 5}
-	cnt := 0
+	taken := 0
 	for _, seq := range seqs {
-		// in the quick tier take every 3rd sequence per script/data combination, rotating
-		for si, dl := range dataLens {
-			scs := scripts(dl)
-			sc := scs[(cnt+si)%len(scs)]
-			cnt++
-			if !g.Thor && cnt%3 != 0 {
-				continue
+		for _, dl := range dataLens {
+			// quick tier: every (sequence, length) combination once, scripts rotating; thorough: all 8 scripts
+			nsc := 1
+			if g.Thor {
+				nsc = 8
 			}
-			ops := VL{}
-			for _, o := range seq {
-				ops = append(ops, o, Ls(I(4)))
+			for k := 0; k < nsc; k++ {
+				scs := scripts(dl)
+				sc := scs[taken%len(scs)]
+				taken++
+				add("exh/"+sc.name, reader(taken, dl, 20+taken%2, sc.with, sc.chunks, withLen(seq...)))
 			}
-			g.Add("exh/"+sc.name, Ls(I(0), PatV(cnt, dl), I(20+cnt%2), I(sc.with), sc.chunks, ops, I(0)))
 		}
 	}
-	// 2. small cases (everything below the buffer size): many, cheap, feed the in-kernel sample
-	for i := 0; i < g.Scale(1500, 20000); i++ {
+	if g.Thor { // length 3 over a reduced alphabet
+		red := []V{mkop(0, 1), mkop(0, B), mkop(0, B+1), mkop(1, 2*B+1), mkop(2, B-1), mkop(3, B+1), mkop(3, 2), rel}
+		for _, a := range red {
+			for _, b := range red {
+				for _, c := range red {
+					for _, dl := range dataLens {
+						scs := scripts(dl)
+						sc := scs[taken%len(scs)]
+						taken++
+						add("exh3/"+sc.name, reader(taken, dl, 20+taken%2, sc.with, sc.chunks, withLen(a, b, c)))
+					}
+				}
+			}
+		}
+	}
+
+	// 2. small cases (everything far below the buffer size): many, cheap, feed the in-kernel sample
+	for i := 0; i < g.Scale(2200, 30000); i++ {
 		dl := g.R.Intn(60)
 		var chunks VL
 		for j := g.R.Intn(8); j > 0; j-- {
@@ -225,26 +270,145 @@ func genC04(g *Gen) {
 		for j := 1 + g.R.Intn(8); j > 0; j-- {
 			switch g.R.Intn(10) {
 			case 0:
-				ops = append(ops, Ls(I(5)))
+				ops = append(ops, rel)
 			case 1:
-				ops = append(ops, Ls(I(4)))
+				ops = append(ops, rl)
 			case 2:
 				ops = append(ops, mkop(g.R.Intn(3), -1-g.R.Intn(3)))
 			default:
 				ops = append(ops, mkop(g.R.Intn(4), g.R.Intn(25)))
 			}
 		}
-		ops = append(ops, Ls(I(4)))
+		ops = append(ops, rl)
 		if g.R.Intn(4) == 0 {
-			g.Add("small/bytes", Ls(I(1), PatV(i, dl), I(20), I(0), Ls(), ops, I(g.R.Intn(3)*g.R.Intn(40))))
+			add("small/bytes", Ls(I(1), PatV(i, dl), I(20), I(0), Ls(), ops, I(g.R.Intn(3)*g.R.Intn(40))))
 		} else {
-			g.Add("small/reader", Ls(I(0), PatV(i, dl), I(20+g.R.Intn(2)), I(g.R.Intn(2)), chunks, ops, I(0)))
+			add("small/reader", reader(i, dl, 20+g.R.Intn(2), g.R.Intn(2), chunks, ops))
 		}
 	}
-	// 3. random histories over large streams
+
+	// 3. directed: the source fails at every position relative to the request boundaries
+	//    (data before the error / together with the error, EOF and injected error), all four consuming ops
+	for _, sizes := range [][]int{{4, 6}, {1, 1}, {10, 0}, {B, 1}, {B - 1, 2}, {100, B}, {2 * B, 3}} {
+		total := sizes[0] + sizes[1]
+		for _, dl := range []int{0, sizes[0] - 1, sizes[0], sizes[0] + 1, total - 1, total, total + 1, total + 7} {
+			if dl < 0 {
+				continue
+			}
+			for k := 0; k < 4; k++ {
+				for with := 0; with < 2; with++ {
+					ops := withLen(mkop(k, sizes[0]), mkop((k+1)%4, sizes[1]), mkop(0, 1), mkop(3, 5))
+					var chunks V = Ls()
+					switch (k + with + dl) % 3 {
+					case 1:
+						chunks = Ls(Ls(I(1), I(min(dl, 200))), I(dl)) // 1-byte reads, then the rest in one piece
+					case 2:
+						chunks = Ls(I(sizes[0]), I(3), I(dl))
+					}
+					add("errpos", reader(dl+k, dl, 20+(dl+k)%2, with, chunks, ops))
+				}
+			}
+		}
+	}
+	// D4 shape: more data than requested arrives together with the error
+	for _, k := range []int{1, 4, 9, 10, 11} {
+		for op := 0; op < 4; op++ {
+			add("with-error", reader(k, 10, 20+k%2, 1, Ls(), withLen(mkop(op, k), mkop(3, 6), mkop(0, 1))))
+		}
+	}
+
+	// 4. directed: runs of empty reads of length 1/99/100/101/199/200 at the start of an acquire and in
+	//    the middle of one (after some progress), then ops on the sticky error
+	for _, run := range []int{1, 2, 98, 99, 100, 101, 199, 200, 201} {
+		for _, pre := range []int{0, 3} {
+			for op := 0; op < 4; op++ {
+				var ch VL
+				if pre > 0 {
+					ch = append(ch, I(pre))
+				}
+				ch = append(ch, Ls(I(0), I(run)), I(2), Ls(I(0), I(run/2)), I(1000))
+				ops := withLen(mkop(op, 8), mkop(0, 2), mkop(1, 1), mkop(3, 40), rel, mkop(0, 1))
+				add("empties", reader(run+op, 30, 20, op%2, ch, ops))
+			}
+		}
+	}
+	// two runs of 60 separated by one byte inside one acquire: not a stall
+	add("empties", reader(7, 50, 20, 0, Ls(Ls(I(0), I(60)), I(1), Ls(I(0), I(60)), I(1), Ls(I(0), I(99)), I(100)), withLen(mkop(0, 10), mkop(0, 40))))
+	// a run of 150 split over two acquires (60 consumed by the first, which is satisfied before them)
+	add("empties", reader(8, 50, 20, 0, Ls(I(4), Ls(I(0), I(99)), I(4), Ls(I(0), I(99)), I(100)), withLen(mkop(0, 4), mkop(0, 4), mkop(0, 4))))
+
+	// a request that is served exactly from the window must not touch the source: an extra Read would use
+	// up one entry of the run of empty reads that follows (exact-fit boundary of the fast path)
+	for _, k := range []int{0, 1, 10} {
+		for op := 0; op < 4; op++ {
+			for _, run := range []int{99, 100} {
+				var ch VL
+				var ops []V
+				if k > 0 {
+					ch = append(ch, I(k))
+					ops = append(ops, mkop(1, k))
+				}
+				ch = append(ch, Ls(I(0), I(run)), I(50))
+				ops = append(ops, mkop(op, k), mkop(0, 3), mkop(0, 1))
+				add("exactfit", reader(k+op, 40, 20, 0, ch, withLen(ops...)))
+			}
+		}
+	}
+
+	// 5. directed: allocation and growth boundaries (request against cap-ri), with and without unread tail,
+	//    Release with empty / non-empty window, stats-driven allocation after Release, bytes-backed growth
+	for _, a := range []int{0, 1, 2, 100, B - 1} {
+		for _, c := range []int{B, 2 * B, 4 * B} {
+			for d := -1; d <= 1; d++ {
+				n := c - a + d
+				if n < 0 {
+					continue
+				}
+				for op := 0; op < 4; op++ {
+					dl := c + 50
+					scs := scripts(dl)
+					sc := scs[(a+c/B+d+op+8)%len(scs)]
+					ops := withLen(mkop(0, a), mkop(op, n), mkop(0, 3), rel, mkop(op, 5), rel, mkop(1, 2))
+					add("grow/"+sc.name, reader(a+op, dl, 20, sc.with, sc.chunks, ops))
+				}
+			}
+		}
+	}
+	for _, first := range []int{1, B, B + 1, 3*B + 1} { // Release after everything was consumed: the next allocation uses the recorded size
+		ops := withLen(mkop(0, first), rel, mkop(0, 1), mkop(1, B), rel, mkop(3, 2*B), mkop(0, 1))
+		add("release", reader(first, first+3*B+20, 20, 0, Ls(I(first), I(1), I(5*B), I(5*B)), ops))
+		add("release", reader(first, first+3*B+20, 21, 1, Ls(), ops))
+	}
+	for _, dl := range []int{0, 1, 100, B, B + 1} { // bytes-backed: inside, exactly at and beyond the slice; extra capacity
+		for _, extra := range []int{0, 1, 50} {
+			for op := 0; op < 4; op++ {
+				ops := withLen(mkop(op, dl/2), mkop(1, dl-dl/2), mkop(0, dl-dl/2), mkop(op, 1), rel, mkop(2, 0), mkop(0, 1))
+				add("bytes", Ls(I(1), PatV(dl+op, dl), I(20), I(0), Ls(), ops, I(extra)))
+				ops2 := withLen(mkop(0, 1), rel, mkop(op, dl+extra), mkop(op, dl), rel, mkop(1, 2*dl+extra+1), mkop(1, 8*(dl+extra)+5), rel, mkop(0, 4), rel, mkop(1, 1))
+				add("bytes", Ls(I(1), PatV(dl+op, dl+3), I(20), I(0), Ls(), ops2, I(extra)))
+			}
+		}
+	}
+
+	// 6. random histories: most over streams up to a few buffers, few over long ones
 	alpha := []int{0, 1, 2, 3, 7, 100, B - 1, B, B + 1, 2*B - 1, 2 * B, 2*B + 1, 3*B + 1, 20000}
-	for i := 0; i < g.Scale(250, 6000); i++ {
-		dl := []int{100, B, 3 * B, 10 * B, 70000}[g.R.Intn(5)] + g.R.Intn(50)
+	for i := 0; i < g.Scale(220, 6000); i++ {
+		var dl, maxOps int
+		switch r := g.R.Intn(100); {
+		case r < 30:
+			dl, maxOps = 100+g.R.Intn(2000), 40
+		case r < 60:
+			dl, maxOps = []int{B, 2 * B}[g.R.Intn(2)]-25+g.R.Intn(50), 30
+		case r < 88:
+			dl, maxOps = 3*B+g.R.Intn(50), 25
+		case r < 97:
+			dl, maxOps = 10*B+g.R.Intn(50), 12
+		default:
+			dl, maxOps = 70000+g.R.Intn(50), 10
+		}
+		if g.Thor {
+			maxOps *= 8
+		}
 		scs := scripts(dl)
 		sc := scs[g.R.Intn(len(scs))]
 		if g.R.Intn(3) == 0 { // random script
@@ -261,14 +425,14 @@ func genC04(g *Gen) {
 			}
 			sc = script{"random", ch, g.R.Intn(2)}
 		}
-		nops := 3 + g.R.Intn(g.Scale(25, 300))
+		nops := 3 + g.R.Intn(maxOps)
 		var ops VL
 		for j := 0; j < nops; j++ {
 			switch g.R.Intn(12) {
 			case 0:
-				ops = append(ops, Ls(I(5)))
+				ops = append(ops, rel)
 			case 1:
-				ops = append(ops, Ls(I(4)))
+				ops = append(ops, rl)
 			case 2:
 				ops = append(ops, mkop(g.R.Intn(3), -1))
 			case 3, 4:
@@ -277,13 +441,31 @@ func genC04(g *Gen) {
 				ops = append(ops, mkop(g.R.Intn(4), alpha[g.R.Intn(len(alpha))]))
 			}
 			if g.R.Intn(3) == 0 {
-				ops = append(ops, Ls(I(4)))
+				ops = append(ops, rl)
 			}
 		}
 		if g.R.Intn(5) == 0 {
-			g.Add("rand/bytes", Ls(I(1), PatV(i, dl), I(20), I(0), Ls(), ops, I(g.R.Intn(2)*g.R.Intn(5000))))
+			add("rand/bytes", Ls(I(1), PatV(i, dl), I(20), I(0), Ls(), ops, I(g.R.Intn(2)*g.R.Intn(5000))))
 		} else {
-			g.Add("rand/"+sc.name, Ls(I(0), PatV(i, dl), I(20+g.R.Intn(2)), I(sc.with), sc.chunks, ops, I(0)))
+			add("rand/"+sc.name, reader(i, dl, 20+g.R.Intn(2), sc.with, sc.chunks, ops))
 		}
+	}
+
+	// emit in a fixed interleaved order (stride permutation) so that the expensive long-stream cases are
+	// spread evenly over the shards of the model driver
+	n := len(all)
+	stride := n*618/1000 + 1
+	gcd := func(a, b int) int {
+		for b != 0 {
+			a, b = b, a%b
+		}
+		return a
+	}
+	for gcd(stride, n) != 1 {
+		stride++
+	}
+	for i := 0; i < n; i++ {
+		c := all[(i*stride)%n]
+		g.Add(c.class, c.in)
 	}
 }
